@@ -9,14 +9,15 @@ from .lib.mir import AnchorLost
 CONFIGS_QUICK = ["A"]
 CONFIGS_THOROUGH = ["A", "R", "NOAPI"]
 TECHNIQUE = "condition-under-which rules (dominating branch facts) for every header mutation in CORSProc::bite's coroutine, decision tables of the builder and of the default OPTIONS handler"
-LEVEL_TEXT = ("Decides clauses C14-a/b: CORSProc::bite sets Access-Control-Allow-Origin to the configured origin unconditionally on every path from the inner proc to "
-              "the return (so also on errors and 404), Allow-Credentials `true` exactly under the credentials flag, Expose-Headers exactly when configured, "
-              "Vary: Origin exactly for the wildcard, the preflight-only headers (Max-Age, Allow-Methods, Allow-Headers with the echo of "
-              "Access-Control-Request-Headers as fallback) only for OPTIONS requests, and rewrites 501 to 200 without Content-Type/Length only for OPTIONS "
-              "with status Not Implemented; CORS::AllowCredentials() sets the flag only for a non-wildcard origin; the origin literal tables are mutually "
-              "consistent; the default OPTIONS handler advertises the registered methods plus HEAD iff GET plus OPTIONS, answers 501 + Allow-Methods when the "
-              "requested method is in that list, 400 + Allow-Methods when not, and 404 without Access-Control-Request-Method; register_handlers derives the "
-              "list from exactly the filled handler slots. Decides these clauses, not the advertised set under nested/merged applications.")
+LEVEL_TEXT = ('Decides clauses C14-a/b: CORSProc::bite sets Access-Control-Allow-Origin to the configured origin unconditionally on every path from the inner proc to'
+              ' the return (so also on errors and 404), Allow-Credentials `true` exactly under the credentials flag, Expose-Headers exactly when configured, Vary: '
+              'Origin exactly for the wildcard, the preflight-only headers (Max-Age, Allow-Methods, Allow-Headers with the echo of Access-Control-Request-Headers as '
+              'fallback) only for OPTIONS requests, and rewrites 501 to 200 without Content-Type/Length only for OPTIONS with status Not Implemented; '
+              'CORS::AllowCredentials() sets the flag only for a non-wildcard origin; the origin literal tables are mutually consistent; the default OPTIONS handler '
+              'advertises the registered methods plus HEAD iff GET plus OPTIONS, answers 501 + Allow-Methods when the requested method is in that list, 400 + Allow-'
+              'Methods when not, and 404 without Access-Control-Request-Method; register_handlers derives the list from exactly the filled handler slots. The '
+              'requested preflight method is looked up by whole-name membership in the list of registered methods (not by a text search in their concatenation). '
+              'Decides these clauses, not the advertised set under nested/merged applications.')
 
 
 def run(ck, progs):
@@ -207,6 +208,12 @@ def c14b(ck, prog):
     cont = [c for c in h.calls() if c.name == "contains"]
     ok = len(cont) == 1 and "AccessControlRequestMethod" in decision.describe_deep(h, cont[0].args[1], 5)
     ck.ob(R, "requested-method:source", ok, h.loc(None), "" if ok else "the list is not searched for the value of Access-Control-Request-Method", how="available_methods.contains(&Access-Control-Request-Method)")
+    # ... by element-wise membership in the list of method names, not by a text search in their concatenation
+    elem = [c for c in cont if re.search(r"^core::slice::<impl \[T\]>::contains$|^alloc::vec::Vec::<T, A>::contains$|HashSet<.*>::contains$|BTreeSet<.*>::contains$", c.callee or "")]
+    ok = len(cont) == 1 and len(elem) == 1
+    ck.ob(R, "requested-method:whole-name-membership", ok, h.loc(cont[0].sp if cont else None),
+          "" if ok else "the requested method is looked up with `%s`: a text search in the joined list accepts fragments (`PO`, `T`, `GET, PUT`) as registered methods, "
+          "so such a preflight is answered 2xx instead of 4xx" % ((cont[0].callee if cont else "?")), how="<[&str]>::contains(&method): equality with one whole method name")
     # register_handlers: the list is built from exactly the filled slots
     rh = prog.method(r"^ohkami::router::base::Router$", "register_handlers")
     got = {}
